@@ -1,4 +1,5 @@
 import Rivaas.Spec.RealIP
+import Rivaas.Model.RealIPText
 /-
 C18 — Client IP resolution cannot be spoofed by untrusted peers.
 Property theorems only (helper lemmas are marked `private`/`lemma_` and sit above the theorem
@@ -279,5 +280,160 @@ example :
                      hdrs := [.single none, .xff [some (['c'], false), some (['a'], true), none, some (['b'], true)]] }
     1 ≤ r.maxHops ∧ untrustedWithin 2 [some (['b'], true), none, some (['a'], true), some (['c'], false)] = true ∧
     clientIP r = ['c'] := by decide
+
+
+/-! ### the text layer: `splitAndTrim`, `parseOneIP` -/
+
+/-- `strings.Join(parts, ",")` -/
+def joinComma : List Bytes → Bytes
+  | [] => []
+  | [x] => x
+  | x :: y :: rest => x ++ ',' :: joinComma (y :: rest)
+
+theorem lemma_splitComma_ne_nil (s cur : Bytes) : splitComma s cur ≠ [] := by
+  induction s generalizing cur with
+  | nil => simp [splitComma]
+  | cons c cs ih =>
+    simp only [splitComma]
+    split
+    · simp
+    · exact ih _
+
+/-- splitting on commas loses nothing: joining the fields gives the header value back -/
+theorem splitComma_join (s cur : Bytes) : joinComma (splitComma s cur) = cur.reverse ++ s := by
+  induction s generalizing cur with
+  | nil => simp [splitComma, joinComma]
+  | cons c cs ih =>
+    simp only [splitComma]
+    split
+    · rename_i hc
+      have hc' : c = ',' := by simpa using hc
+      have hne := lemma_splitComma_ne_nil cs []
+      match hsp : splitComma cs [] with
+      | [] => exact absurd hsp hne
+      | y :: rest =>
+        have := ih []
+        rw [hsp] at this
+        simp [joinComma, this, hc']
+    · rw [ih]; simp
+
+theorem lemma_splitComma_no_comma (s cur : Bytes) (hcur : ',' ∉ cur) :
+    ∀ p ∈ splitComma s cur, ',' ∉ p := by
+  induction s generalizing cur with
+  | nil => intro p hp; simp [splitComma] at hp; subst hp; simpa using hcur
+  | cons c cs ih =>
+    intro p hp
+    simp only [splitComma] at hp
+    split at hp
+    · simp only [List.mem_cons] at hp
+      rcases hp with rfl | hp
+      · simpa using hcur
+      · exact ih [] (by simp) p hp
+    · rename_i hc
+      exact ih (c :: cur) (by
+        intro hm
+        simp only [List.mem_cons] at hm
+        rcases hm with h | h
+        · exact hc (by simp [← h])
+        · exact hcur h) p hp
+
+theorem lemma_trimLeft_sub (s : Bytes) : ∀ c ∈ trimLeft s, c ∈ s := by
+  induction s with
+  | nil => simp [trimLeft]
+  | cons a as ih =>
+    intro c hc
+    simp only [trimLeft] at hc
+    split at hc
+    · exact List.mem_cons_of_mem _ (ih c hc)
+    · exact hc
+
+theorem lemma_trim_sub (s : Bytes) : ∀ c ∈ trim s, c ∈ s := by
+  intro c hc
+  simp only [trim, List.mem_reverse] at hc
+  have := lemma_trimLeft_sub _ c hc
+  simp only [List.mem_reverse] at this
+  exact lemma_trimLeft_sub _ c this
+
+theorem lemma_trimLeft_head (s : Bytes) : ∀ c rest, trimLeft s = c :: rest → isSpace c = false := by
+  induction s with
+  | nil => simp [trimLeft]
+  | cons a as ih =>
+    intro c rest h
+    simp only [trimLeft] at h
+    split at h
+    · exact ih c rest h
+    · rename_i hs
+      cases h
+      simpa using hs
+
+/-- **`splitAndTrim` yields clean candidates.** Every item handed to `parseOneIP` is non-empty,
+    contains no comma and carries no ASCII white space at its right end; and no byte is invented
+    (each byte of an item is a byte of the header). -/
+theorem splitAndTrim_items_clean (s : Bytes) :
+    ∀ p ∈ splitAndTrim s, p ≠ [] ∧ ',' ∉ p ∧ (∀ c ∈ p, c ∈ s) ∧
+      (∀ c rest, p.reverse = c :: rest → isSpace c = false) := by
+  intro p hp
+  unfold splitAndTrim at hp
+  split at hp
+  · simp at hp
+  · simp only [List.mem_filter, List.mem_map] at hp
+    obtain ⟨⟨q, hq, rfl⟩, hne⟩ := hp
+    have hnc := lemma_splitComma_no_comma s [] (by simp) q hq
+    have hsub : ∀ c ∈ q, c ∈ s := by
+      intro c hc
+      have hj := splitComma_join s []
+      have : c ∈ joinComma (splitComma s []) := by
+        generalize splitComma s [] = l at hq
+        induction l with
+        | nil => simp at hq
+        | cons x xs ihx =>
+          cases xs with
+          | nil => simp at hq; subst hq; simpa [joinComma] using hc
+          | cons y ys =>
+            simp only [List.mem_cons] at hq
+            rcases hq with rfl | hq
+            · simp [joinComma, hc]
+            · have := ihx (by simpa using hq)
+              simp only [joinComma, List.mem_append, List.mem_cons]
+              right; right; exact this
+      simpa [hj] using this
+    refine ⟨by simpa using hne, ?_, ?_, ?_⟩
+    · intro hm; exact hnc (lemma_trim_sub q _ hm)
+    · intro c hc; exact hsub c (lemma_trim_sub q c hc)
+    · intro c rest h
+      simp only [trim, List.reverse_reverse] at h
+      exact lemma_trimLeft_head _ c rest h
+
+/-- **Non-interference on the raw request.** With an untrusted peer the answer is the peer address
+    for every header text whatsoever (whenever the case's `net` table covers the items). -/
+theorem untrusted_peer_noninterference_raw (r : RawReq) (h : r.peerTrusted = false) (res : Bytes)
+    (hres : clientIPRaw r = some res) : res = r.peer := by
+  unfold clientIPRaw at hres
+  match hp : r.parse with
+  | none => simp [hp] at hres
+  | some q =>
+    simp only [hp, Option.map_some, Option.some.injEq] at hres
+    have hq : q.peerTrusted = false ∧ q.peer = r.peer := by
+      unfold RawReq.parse at hp
+      match hm : r.hdrs.mapM (parseHdr r.tbl) with
+      | none => simp [hm] at hp
+      | some hs => simp [hm] at hp; subst hp; exact ⟨h, rfl⟩
+    rw [← hres, untrusted_peer_noninterference q hq.1, hq.2]
+
+/-- **The whole oracle on the raw request**: whatever the header text, the answer computed through
+    `splitAndTrim`/`parseOneIP`/the walk satisfies the C18 oracle of the parsed request. -/
+theorem clientIPRaw_meets_spec (r : RawReq) (hmh : 1 ≤ r.maxHops) (q : Req) (res : Bytes)
+    (hq : r.parse = some q) (hres : clientIPRaw r = some res) : specOK q res = true := by
+  unfold clientIPRaw at hres
+  simp only [hq, Option.map_some, Option.some.injEq] at hres
+  have hm : q.maxHops = r.maxHops := by
+    unfold RawReq.parse at hq
+    match hm : r.hdrs.mapM (parseHdr r.tbl) with
+    | none => simp [hm] at hq
+    | some hs => simp [hm] at hq; subst hq; rfl
+  rw [← hres]
+  exact clientIP_meets_spec q (by omega)
+
+example : splitAndTrim " 1.1.1.1 ,, 10.0.0.1,x ".toList = ["1.1.1.1".toList, "10.0.0.1".toList, ['x']] := by decide
 
 end Rivaas.C18
